@@ -707,6 +707,7 @@ class Interproc:
             for lf in s.exports:
                 ok, lift, cond = self.check_lifted(an, ctx, lf)
                 nl = None
+                raw_un = lift[1] if (not ok and lift is not None and lift[0] == "conj") else None
                 if not ok and lift is not None:
                     if lift[0] == "conj":
                         an.cur_dirty = ctx.st.dirty
@@ -714,7 +715,9 @@ class Interproc:
                     if lift is not None:
                         nl = Lifted(lf.cls, lift[0], lift[1:], lf.origin, lf.desc, lf.what, lf.file, lf.line, lf.chain + [an.b.id])
                 if an.collect:
-                    an.res.obls.append(_lifted_obl(ctx, lf, ok, nl, an))
+                    lo = _lifted_obl(ctx, lf, ok, nl, an)
+                    lo.raw = raw_un
+                    an.res.obls.append(lo)
                 if len(cands) == 1:
                     post.append((lf, lift, cond))
         # 2. effects
